@@ -7,6 +7,7 @@ CrossHair (symbolic leaves) and in concrete replay.
 """
 from __future__ import annotations
 
+import collections.abc
 import dataclasses
 import uuid
 
@@ -221,7 +222,7 @@ def _snapshot(obj, skip_instance_ids):
         )
     if t in (tuple, list):
         return ("seq", tuple(_snapshot(x, skip_instance_ids) for x in obj))
-    if t is dict:
+    if t is dict or isinstance(obj, collections.abc.Mapping):  # incl. CrossHair's ShellMutableMap (dict(...) under tracing)
         items = sorted(obj.items(), key=lambda kv: str(kv[0]))
         return ("dict", tuple((k, _snapshot(v, skip_instance_ids)) for k, v in items))
     return obj
